@@ -178,7 +178,18 @@ def check_byte(prog, b, ref, o, enumv, loader_ext):
                     res.append(("action", False, "argument of 0x%02X must be the %d bytes at source+1; loader %s reads %d bytes at source+%s"
                                 % (b, N, d[1], w, ev_off)))
                 else:
-                    res.append(("action", True, ""))
+                    # ... handed over as it is: on its way to the callback the value is at most widened as the unsigned number it is
+                    # (a detour through a signed or narrower type changes every value with that type's top bit set)
+                    argterm = cb["args"][2] if payload else (cb["args"][1] if len(cb["args"]) > 1 else None)
+                    badcast = None
+                    t_ = argterm
+                    while isinstance(t_, tuple) and t_[0] == "cast":
+                        if t_[1] in ("sext", "trunc", "fptoui", "fptosi", "uitofp", "sitofp"):
+                            badcast = t_[1]
+                        t_ = t_[3]
+                    res.append(("action", badcast is None, "" if badcast is None else
+                                "the %d-byte argument of 0x%02X reaches the callback through a %s conversion: values with the top bit of "
+                                "the narrower type set arrive changed" % (N, b, badcast)))
             else:
                 res.append(("action", False, "argument of 0x%02X is not a loader result: %s" % (b, _fmt_desc(d))))
         # read / required
